@@ -198,7 +198,8 @@ async fn run_scenario(sc: Scenario, fault: String) -> Result<Outcome, String> {
     for (oi, op) in sc.ops.iter().enumerate() {
         let key = key_for(sc.id, oi);
         for &h in &op.holders {
-            if spec(h).role != "kad" {
+            // holder 0 is the local node itself (a record / provider it already has locally)
+            if h != 0 && spec(h).role != "kad" {
                 continue;
             }
             match op.kind.as_str() {
@@ -294,7 +295,8 @@ async fn run_scenario(sc: Scenario, fault: String) -> Result<Outcome, String> {
         }
     }
     // 6. the operations
-    let t_ops = Instant::now();
+    // every operation gets the full deadline, counted from the moment it was issued
+    let mut t_ops = Instant::now();
     for (oi, op) in sc.ops.iter().enumerate() {
         let key = key_for(sc.id, oi);
         let (tx, rx) = oneshot::channel();
@@ -303,6 +305,7 @@ async fn run_scenario(sc: Scenario, fault: String) -> Result<Outcome, String> {
         match tokio::time::timeout(Duration::from_secs(30), rx).await {
             Ok(Ok(q)) => {
                 issued.push((0, q as u64, op.clone(), key));
+                t_ops = Instant::now();
                 if sc.seq {
                     while !wait_term(&log, 0, q as u64) && t_ops.elapsed() < Duration::from_millis(sc.deadline_ms) {
                         tokio::time::sleep(Duration::from_millis(20)).await;
